@@ -209,6 +209,30 @@ Fixpoint offsets_ok (off : Z) (lg : list (rwcall A * answer)) : Prop :=
                 | AErr _ => off end) l
   end.
 
+Lemma write_all_loop_step fuel iovmax s bufs off total c :
+  bufs <> [] ->
+  pick_call bufs (if iovmax <? length bufs then iovmax else length bufs) off = Some c ->
+  write_all_loop sys (S fuel) iovmax s bufs off total =
+  (let '(a, s') := sys s c in
+   match a with
+   | AErr e =>
+     if (e =? EINTR)%Z then
+       let '(r, lg, s'') := write_all_loop sys fuel iovmax s' bufs off total in
+       (r, (c, a) :: lg, s'')
+     else (WDone (if total =? 0 then RErr e else ROk total), [(c, a)], s')
+   | AOk O => (WDone (ROk total), [(c, a)], s')
+   | AOk n =>
+     let '(o, bufs') := buf_offset bufs n in
+     let off' := if (0 <=? off)%Z then (off + Z.of_nat n)%Z else off in
+     let '(r, lg, s'') :=
+       write_all_loop sys fuel iovmax s' (skipn o bufs') off' (total + n) in
+     (r, (c, a) :: lg, s'')
+   end).
+Proof.
+  intros Hne Hc. destruct bufs as [|b bs]; [congruence|].
+  cbn [write_all_loop]. rewrite Hc. reflexivity.
+Qed.
+
 Lemma written_cons (w : rwcall A * answer) lg : written (w :: lg) = wrec_data w ++ written lg.
 Proof. reflexivity. Qed.
 
